@@ -170,6 +170,9 @@ static void run_c13(long cases) {
         uint64_t seed = g_opts.seed * 1000003ull + (uint64_t)i;
         Rng r(seed);
         int nprod = r.range(1, 3), npush = r.range(1, 3);
+        // free-running storm rounds: many pushes per producer, so that two producers really are inside push() at the same time
+        // (the cooperative scheduler only switches at hooks; a window between two un-hooked instructions needs real parallelism)
+        if (!g_coop && ((i / g_opts.nshards) % 256) == 3) { nprod = 3; npush = (int)g_opts.num("storm", 2000); }
         int strat = (i % 3) == 0 ? 1 : 0;
         s.reset(nprod + 1, seed, strat, 1 + (int)(i % 3), 30 * nprod * npush);
         set_case(i, Json().num("i", i).str("phase", "c13").num("producers", nprod).num("pushes", npush).num("seed", (long long)g_opts.seed).done());
